@@ -255,10 +255,6 @@ func (e *SpecEnv) local(name string) (SVal, bool) {
 			}
 		}
 	}
-	// the value the variable was last given on this path (assignment, merge point, loop cut)
-	if nv, ok := e.fr.named[name]; ok && os.Getenv("GOVC_NO_NAMED") == "" {
-		return SVal{nv.t, nv.ty}, true
-	}
 	for _, b := range fn.Blocks {
 		for _, in := range b.Instrs {
 			switch x := in.(type) {
@@ -271,6 +267,10 @@ func (e *SpecEnv) local(name string) (SVal, bool) {
 				}
 			}
 		}
+	}
+	// the value the variable was last given on this path (assignment, merge point, loop cut)
+	if nv, ok := e.fr.named[name]; ok && os.Getenv("GOVC_NO_NAMED") == "" {
+		return SVal{nv.t, nv.ty}, true
 	}
 	for _, b := range fn.Blocks {
 		for _, in := range b.Instrs {
@@ -926,7 +926,7 @@ func (e *SpecEnv) callExpr(n *ast.CallExpr) SVal {
 				e.v.linkFuncValue(e.st, f.T.Int64(), sig)
 			}
 			return SVal{t, sig.Results().At(0).Type()}
-		case "rangeseen", "rangekey", "rangecount":
+		case "rangeseen", "rangekey", "rangecount", "rangedom":
 			// the innermost running iteration over a map of unknown contents: rangeseen(k) - key k has been
 			// handed out (the current one included); rangekey() - the key of the current iteration
 			var it *iterInfo
@@ -944,6 +944,12 @@ func (e *SpecEnv) callExpr(n *ast.CallExpr) SVal {
 			}
 			if id.Name == "rangecount" {
 				return SVal{it.count, tyInt}
+			}
+			if id.Name == "rangedom" {
+				// rangedom(k): k is a key of the map being walked
+				a := e.eval(n.Args[0])
+				mo := Select(e.st.getHeap(it.msort), it.mapRef)
+				return SVal{Select(Sel(mo, 0), a.T), tyBool}
 			}
 			if id.Name == "rangekey" {
 				if it.curKey == nil {
